@@ -11,6 +11,7 @@ import (
 	"sort"
 	"strconv"
 	"sync"
+	"sync/atomic"
 	"time"
 
 	"verifharness/kobj"
@@ -39,6 +40,7 @@ const (
 	ListNoItems      // a list type without an Items field
 	ListNonObjects   // a list whose items are not API objects
 	ListHang         // blocks until the context is cancelled
+	ListErrCanceled  // returns context.Canceled although nobody cancelled
 )
 
 var ErrList = errors.New("fakeapi: injected list error")
@@ -52,7 +54,12 @@ type ListCall struct {
 	Kind       ListKind
 }
 
+// Seq is a logical clock shared by every observer of a scenario: an
+// observation with a smaller Seq was made before one with a larger Seq.
+var Seq atomic.Int64
+
 type WatchCall struct {
+	Seq     int64
 	N       int
 	At      time.Time
 	RV      string
@@ -221,6 +228,8 @@ func (s *Server) List(ctx context.Context, _ metav1.ListOptions) (runtime.Object
 	switch kind {
 	case ListErr:
 		return nil, ErrList
+	case ListErrCanceled:
+		return nil, context.Canceled
 	case ListNonList:
 		return &corev1.Pod{}, nil
 	case ListNoItems:
@@ -345,7 +354,7 @@ func (s *Server) Watch(ctx context.Context, opts metav1.ListOptions) (watch.Inte
 	if s.WatchLatency != nil {
 		lat = s.WatchLatency(n)
 	}
-	s.Watches = append(s.Watches, WatchCall{N: n, At: time.Now(), RV: opts.ResourceVersion, Outcome: behave})
+	s.Watches = append(s.Watches, WatchCall{Seq: Seq.Add(1), N: n, At: time.Now(), RV: opts.ResourceVersion, Outcome: behave})
 	s.mu.Unlock()
 	if lat > 0 {
 		select {
